@@ -574,6 +574,7 @@ pub fn run(op: &str, a: &Args) -> Option<Outcome> {
             let expected = (pa == pb && la == lb).to_string();
             Some(Outcome { observed, expected, note: String::new() })
         }
+        ["info", "attr_norm"] => Some(crate::ops_more::info_attr_norm(arg(a, "doc"), arg(a, "expected"))),
         ["info", "attr_value"] => Some(crate::ops_more::info_attr_value(arg(a, "doc"))),
         ["info", "build_print"] => Some(crate::ops_more::info_build_print(arg(a, "doc"))),
         ["info", "build_print_inproc"] => Some(crate::ops_more::info_build_print_inproc(arg(a, "doc"))),
@@ -748,6 +749,11 @@ pub fn grid(op: &str, limit: usize) -> (usize, Vec<(Args, Outcome)>) {
         ["dom", "tree_atomic"] => {
             for sc in crate::ops_more::TREE_SCENARIOS {
                 try_one(mk(&[("scenario", sc)]), &mut n, &mut bad);
+            }
+        }
+        ["info", "attr_norm"] => {
+            for (d, e) in crate::ops_more::ATTR_NORM_CASES {
+                try_one(mk(&[("doc", d), ("expected", e)]), &mut n, &mut bad);
             }
         }
         ["info", "attr_value"] => {
